@@ -61,6 +61,21 @@ template<class T> static Proj project(const tdigest<T>& s) {
   return r;
 }
 
+// distance in units in the last place between two finite values of type F (0 if equal)
+template<class F> static long long ulps(F a, F b) {
+  using I = typename std::conditional<sizeof(F) == 8, int64_t, int32_t>::type;
+  auto key = [](F v) -> long long { I i; memcpy(&i, &v, sizeof(F)); return i < 0 ? (long long)std::numeric_limits<I>::min() - (long long)i : (long long)i; };
+  if (!(std::isfinite(a) && std::isfinite(b))) return 1000000000LL;
+  long long ka = key(a), kb = key(b); long long d = ka > kb ? ka - kb : kb - ka;
+  return d > 1000000000LL ? 1000000000LL : d;
+}
+// largest decrease between consecutive answers, in ulps of the answer type (0 = non-decreasing)
+template<class F> static long long max_drop(const std::vector<double>& v) {
+  long long m = 0;
+  for (size_t j = 1; j < v.size(); j++) if (v[j] < v[j - 1]) m = std::max(m, ulps<F>((F)v[j - 1], (F)v[j]));
+  return m;
+}
+
 // NaN can only appear here after an infinity was accepted (the contract then ignores the centroids): log it as -inf
 static double nn(double v) { return std::isnan(v) ? -INFINITY : v; }
 static std::string cent_json(const std::vector<Cent>& c) {
@@ -218,12 +233,12 @@ template<class T> struct Driver {
   void do_rankgrid(int i, const std::vector<double>& xs) {
     std::vector<double> rs; long nnan = 0;
     for (double x : xs) { double r = sk[i]->get_rank((T)x); if (std::isnan(r)) { nnan++; r = -INFINITY; } rs.push_back(r); }
-    Ev e("RankGrid"); e.i("id", i).dl("xs", xs).dl("rs", rs).i("nnan", nnan); finish(e, i);
+    Ev e("RankGrid"); e.i("id", i).dl("xs", xs).dl("rs", rs).i("nnan", nnan).i("maxdrop", max_drop<double>(rs)); finish(e, i);
   }
   void do_quantgrid(int i, const std::vector<double>& ps) {
     std::vector<double> qs; long nnan = 0;
     for (double p : ps) { double q = (double)sk[i]->get_quantile(p); if (std::isnan(q)) { nnan++; q = -INFINITY; } qs.push_back(q); }
-    Ev e("QuantGrid"); e.i("id", i).dl("ps", ps).dl("qs", qs).i("nnan", nnan); finish(e, i);
+    Ev e("QuantGrid"); e.i("id", i).dl("ps", ps).dl("qs", qs).i("nnan", nnan).i("maxdrop", max_drop<T>(qs)); finish(e, i);
   }
   void do_cdf(int i, const std::vector<double>& sp) {
     std::vector<T> pts; for (double v : sp) pts.push_back((T)v);
@@ -235,7 +250,7 @@ template<class T> struct Driver {
     for (size_t j = 0; j < cdf.size(); j++) ref.push_back(j == 0 ? cdf[0] : cdf[j] - cdf[j - 1]);
     std::vector<double> c(cdf.begin(), cdf.end()), m(pmf.begin(), pmf.end());
     for (auto* v : {&c, &m, &ranks, &ref}) for (double& x : *v) if (std::isnan(x)) { nnan++; x = -INFINITY; }
-    Ev e("Cdf"); e.i("id", i).dl("sp", sp).dl("cdf", c).dl("pmf", m).dl("ranks", ranks).dl("pmfref", ref).i("nnan", nnan);
+    Ev e("Cdf"); e.i("id", i).dl("sp", sp).dl("cdf", c).dl("pmf", m).dl("ranks", ranks).dl("pmfref", ref).i("nnan", nnan).i("maxdrop", max_drop<double>(c));
     finish(e, i);
   }
   template<class F> static bool throws(F f) { try { f(); } catch (const std::exception&) { return true; } return false; }
